@@ -250,6 +250,14 @@ class SetAlg:
         return t == EMPTY or (t[0] in ("listlit", "tuplelit", "setlit", "dictlit") and not t[1])
 
     def member(self, e: Term, t: Term) -> Formula:
+        if t[0] == "call" and t[1] == "zip" and len(t[2]) == 2 and e[0] == "tuplelit" and len(e[1]) == 2 and not getattr(self, "_in_zip", False):
+            # (x, y) in zip(X, Y): x is an element of X and y one of Y (necessary; which ones are paired is left to the atom)
+            self._in_zip = True
+            try:
+                rest = self.member(e, t)
+            finally:
+                self._in_zip = False
+            return f_and(rest, self.member(e[1][0], t[2][0]), self.member(e[1][1], t[2][1]))
         t = self.strip(t)
         h = t[0]
         if self._is_empty(t):
@@ -691,6 +699,9 @@ class SetAlg:
             return f_or(f_and(ci, self.cond(c[2])), f_and(f_not(ci), self.cond(c[3])))
         if h == "iter-elem" and c[1][0] == "var":
             return self.member(c[1], c[2])
+        if h == "iter-elem" and c[1][0] == "tuplelit" and len(c[1][1]) == 2 and c[2][0] == "call" and c[2][1] == "zip" and len(c[2][2]) == 2:
+            # a pair drawn from zip(X, Y): its components are elements of X and of Y
+            return f_and(("atom", self.canon_opaque(c)), self.member(c[1][1][0], c[2][2][0]), self.member(c[1][1][1], c[2][2][1]))
         if h in ("any", "all") and c[1][0] == "comp" and c[1][2][0] == ("or" if h == "any" else "and"):
             # ∃x (A ∨ B) = ∃x A ∨ ∃x B ;  ∀x (A ∧ B) = ∀x A ∧ ∀x B
             parts = [self.cond((h, ("comp", c[1][1], b, c[1][3]))) for b in c[1][2][1:]]
